@@ -76,6 +76,22 @@ package standard
 //@   at call SignBeaconAttestations#1: assert arg2 == data.Slot && arg4 == data.BeaconBlockRoot && arg5 == data.Source.Epoch && arg6 == data.Source.Root && arg7 == data.Target.Epoch && arg8 == data.Target.Root
 //@   at call SignBeaconAttestations#1: assert arg7 == arg2 / s.slotsPerEpoch && arg5 <= arg7
 //@
+//@ // C20: after the housekeeping only the marks of the duty's epoch, the one before it and later ones are held,
+//@ // whatever was held before (an epoch without a successful attestation does not leave its predecessors behind);
+//@ // C01: and those recent marks are untouched
+//@ func (*Service).housekeepAttestedMap
+//@   requires s != nil && s.chainTime != nil && s.attested != nil && nolocks() && duty != nil
+//@   assumes call SlotToEpoch (e): e == epochOf(arg0)
+//@   ensures forall e phase0.Epoch {in(s.attested, e)} :: in(s.attested, e) ==> e + 2 > epochOf(duty.slot)
+//@   ensures forall e phase0.Epoch, v phase0.ValidatorIndex :: in(old(s.attested[e]), v) && u64(e + 2) > epochOf(duty.slot) ==> in(s.attested[e], v)
+//@   ensures forall e phase0.Epoch :: in(old(s.attested), e) && u64(e + 2) > epochOf(duty.slot) ==> in(s.attested, e)
+//@   loop 1
+//@     invariant forall e phase0.Epoch :: visited(e) && u64(e + 2) <= epochOf(duty.slot) ==> !in(s.attested, e)
+//@     invariant forall e phase0.Epoch :: in(s.attested, e) ==> in(old(s.attested), e)
+//@     invariant forall e phase0.Epoch :: in(old(s.attested), e) && u64(e + 2) > epochOf(duty.slot) ==> in(s.attested, e)
+//@     invariant forall e phase0.Epoch, v phase0.ValidatorIndex :: in(old(s.attested[e]), v) && u64(e + 2) > epochOf(duty.slot) ==> in(s.attested[e], v)
+//@   modifies contents(s.attested)
+//@
 //@ func (*Service).Attest
 //@   requires s != nil && s.chainTime != nil && s.attested != nil && nolocks() && s.slotsPerEpoch > 0
 //@   requires s.attestationDataProvider != nil && s.validatingAccountsProvider != nil && s.beaconAttestationsSigner != nil && s.attestationsSubmitter != nil
@@ -103,5 +119,7 @@ package standard
 //@   // C01: only validators that this call newly marked for the epoch reach the signer ...
 //@   at call attest#1: assert forall k int :: 0 <= k && k < len(arg3) ==> !in(old(s.attested[epochOf(duty.slot)]), accountValidatorIndices[k])
 //@   // ... and whatever the outcome (success, failed fetch, failed signing or submission) the marks stay: nothing recent is un-marked
-//@   ensures forall e phase0.Epoch, v phase0.ValidatorIndex :: in(old(s.attested[e]), v) && e + 2 != epochOf(duty.slot) ==> in(s.attested[e], v)
-//@   ensures epochOf(duty.slot) + 2 != epochOf(duty.slot) ==> forall j int :: 0 <= j && j < len(duty.validatorIndices) ==> in(s.attested[epochOf(duty.slot)], duty.validatorIndices[j])
+//@   ensures forall e phase0.Epoch, v phase0.ValidatorIndex :: in(old(s.attested[e]), v) && u64(e + 2) > epochOf(duty.slot) ==> in(s.attested[e], v)
+//@   ensures u64(epochOf(duty.slot) + 2) > epochOf(duty.slot) ==> forall j int :: 0 <= j && j < len(duty.validatorIndices) ==> in(s.attested[epochOf(duty.slot)], duty.validatorIndices[j])
+//@   // C20: a successful call leaves only the marks of a fixed window of recent epochs
+//@   ensures result1 == nil ==> forall e phase0.Epoch {in(s.attested, e)} :: in(s.attested, e) ==> e + 2 > epochOf(duty.slot)
